@@ -55,6 +55,17 @@ def random_history(rng, nops, append_pct):
     return {"fam": "sdt", "ops": ops}
 
 
+def big_histories(th):
+    """tables grown by uniform slices of tens to hundreds of MiB (the checksum is recomputed over the whole table)"""
+    progs = []
+    for n in ((34000000, 40 << 20, 68000000, 136000000, 272000000) + (((1 << 29) + 5, 1 << 30) if th else ())):
+        # (slices only: the sink entry points append byte by byte, each with a full re-sum -- quadratic)
+        progs.append({"fam": "sdt", "big": [{"via": "append_slice", "n": n, "b": 255}]})
+    progs.append({"fam": "sdt", "big": [{"via": "append_slice", "n": 20000000, "b": 255}, {"via": "sink_vec", "n": 2000, "b": 254},
+                                        {"via": "append_slice", "n": 3, "b": 1}, {"via": "append_slice", "n": 70000000, "b": 128}]})
+    return progs
+
+
 def run(ctx):
     rng = vlib.Rng(ctx.seed)
     th = ctx.thorough()
@@ -77,6 +88,7 @@ def run(ctx):
     short = [random_history(rng, 1, 50) for _ in range(300)]   # many constructor argument tuples
     short += [{"fam": "sdt", "ops": [{"op": "new", "n": n}]} for n in (0, 1, 35, 36)]
     programs += short
+    programs += big_histories(th)
     ctx.samples.append({"fam": "sdt", "ops": programs[-310]["ops"][:5]})
     ctx.distinct = {json.dumps(p, sort_keys=True) for p in programs}
     vlib.run_and_judge(ctx, programs, "Trace_Sdt.cfg", "Trace_Sdt.tla", "c13", timeout=3600)
